@@ -282,6 +282,19 @@ def near_misses(ctx):
     out.append(("call-of-non-broadcastable-operands",
                 mk(prim.Call(v("pytato.c99.atan2"), (v("_in0")[v("_0"), v("_1")], v("_in1")[v("_0")])),
                    (3, 4), {"_in0": m34, "_in1": w3})))
+    # an elementwise operation FUSED with a broadcast of its result: every operand is accessed through its exact
+    # broadcast subscript, but the operands' common shape (4,) is not the result's shape (3, 4)
+    a4, b4, c4 = ph((4,)), ph((4,)), ph((4,))
+    out.append(("fused-broadcast-of-sum", mk(v("_in0")[v("_1")] + v("_in1")[v("_1")], (3, 4), {"_in0": a4, "_in1": b4})))
+    out.append(("fused-broadcast-of-scalar-product", mk(v("_in0")[v("_1")] * 2.0, (3, 4), {"_in0": a4})))
+    out.append(("fused-broadcast-of-where",
+                mk(prim.If(prim.Comparison(v("_in0")[v("_1")], ">", 0), v("_in1")[v("_1")], v("_in2")[v("_1")]), (3, 4),
+                   {"_in0": a4, "_in1": b4, "_in2": c4})))
+    out.append(("fused-broadcast-of-call", mk(prim.Call(v("pytato.c99.sin"), (v("_in0")[v("_1")],)), (3, 4), {"_in0": a4})))
+    out.append(("fused-broadcast-of-comparison", mk(prim.Comparison(v("_in0")[v("_1")], "<", v("_in1")[v("_1")]), (2, 3, 4),
+                                                    {"_in0": a4, "_in1": b4}, dt="bool")))
+    s0 = ph(())
+    out.append(("fused-broadcast-of-0d-sum", mk(v("_in0") + v("_in1"), (3,), {"_in0": s0, "_in1": ph(())})))
     # every high-level node kind lowered by the public to_index_lambda: classified correctly or unknown
     from pytato.transform.lower_to_index_lambda import to_index_lambda
     x34, y34 = ph((3, 4)), ph((3, 4))
